@@ -8,6 +8,8 @@ import (
 	"errors"
 	"fmt"
 	"math/big"
+	"strings"
+	"sync/atomic"
 	"testing"
 
 	rhp3 "go.sia.tech/core/rhp/v3"
@@ -28,6 +30,25 @@ type world struct {
 	hostID types.Hash256
 	keys   []types.PrivateKey // renter keys
 	tweaks []types.Hash256
+	gate   *gateStore
+}
+
+// gateStore hands the manager the real store; one read can be armed to park after it has returned its value, so
+// that a second update of the same key can be started while the first one sits between its read and its write.
+type gateStore struct {
+	*sqlite.Store
+	armed   atomic.Bool
+	parked  chan struct{}
+	release chan struct{}
+}
+
+func (g *gateStore) GetRegistryValue(key rhp3.RegistryKey) (rhp3.RegistryValue, error) {
+	v, err := g.Store.GetRegistryValue(key)
+	if g.armed.CompareAndSwap(true, false) {
+		close(g.parked)
+		<-g.release
+	}
+	return v, err
 }
 
 func seedKey(n uint64) types.PrivateKey {
@@ -46,7 +67,8 @@ func newWorld(t *testing.T, limit uint64) *world {
 		t.Fatal(err)
 	}
 	w := &world{t: t, store: st, hostPK: hostPK, hostID: rhp3.RegistryHostID(hostPK.PublicKey())}
-	w.rm = registry.NewManager(hostPK, st, zap.NewNop())
+	w.gate = &gateStore{Store: st}
+	w.rm = registry.NewManager(hostPK, w.gate, zap.NewNop())
 	for i := 0; i < 4; i++ {
 		w.keys = append(w.keys, seedKey(uint64(i)))
 		var tw types.Hash256
@@ -108,6 +130,55 @@ func (w *world) build(p putOp) rhp3.RegistryEntry {
 }
 
 func (w *world) doPut(tr *vhlib.Trace, p putOp) {
+	args, obs := w.execPut(p)
+	tr.Count("put:" + strings.Fields(obs)[0][4:])
+	tr.Line("put "+args, obs)
+}
+
+func prefixed(pre, kvs string) string {
+	f := strings.Fields(kvs)
+	for i := range f {
+		f[i] = pre + f[i]
+	}
+	return strings.Join(f, " ")
+}
+
+// doConcurrentPut starts update a, parks it between its read of the stored value and its write, starts update b
+// and lets a go on once b has finished or has been seen to wait. The two updates overlap, so either order is a
+// legal linearisation: the model is asked whether one of the two sequential histories explains both results.
+func (w *world) doConcurrentPut(tr *vhlib.Trace, a, b putOp) {
+	g := w.gate
+	g.parked, g.release = make(chan struct{}), make(chan struct{})
+	g.armed.Store(true)
+	type done struct{ args, obs string }
+	cha, chb := make(chan done, 1), make(chan done, 1)
+	go func() { x, y := w.execPut(a); cha <- done{x, y} }()
+	var da, db done
+	select {
+	case <-g.parked:
+		go func() { x, y := w.execPut(b); chb <- done{x, y} }()
+		select {
+		case db = <-chb:
+			tr.Count("cput:second_did_not_wait")
+			close(g.release)
+			da = <-cha
+		case <-time.After(10 * time.Millisecond):
+			tr.Count("cput:second_waited")
+			close(g.release)
+			da, db = <-cha, <-chb
+		}
+	case da = <-cha: // a never read the store (invalid entry): nothing to overlap with
+		g.armed.Store(false)
+		tr.Count("cput:unparked")
+		x, y := w.execPut(b)
+		db = done{x, y}
+	}
+	tr.Count("cput:" + strings.Fields(da.obs)[0][4:] + "+" + strings.Fields(db.obs)[0][4:])
+	tr.Line("cput "+prefixed("a.", da.args)+" "+prefixed("b.", db.args), prefixed("a.", da.obs)+" "+prefixed("b.", db.obs))
+}
+
+// execPut performs the update and returns the two halves of its trace line.
+func (w *world) execPut(p putOp) (args, obs string) {
 	e := w.build(p)
 	valid := rhp3.ValidateRegistryEntry(e) == nil
 	work := "0"
@@ -136,10 +207,9 @@ func (w *world) doPut(tr *vhlib.Trace, p putOp) {
 			res = "err"
 		}
 	}
-	tr.Count("put:" + res)
-	tr.Line(fmt.Sprintf("put k=%d rev=%d typ=%d work=%s primary=%d tag=%d valid=%d dlen=%d dseed=%d badsig=%d pin=%d",
-		p.k, p.rev, p.typ, work, vhlib.B01(prim), tagOf(e.RegistryValue), vhlib.B01(valid), p.dlen, p.dseed, vhlib.B01(p.badsig), vhlib.B01(p.primary)),
-		fmt.Sprintf("res=%s ret=%d", res, tagOf(ret)))
+	return fmt.Sprintf("k=%d rev=%d typ=%d work=%s primary=%d tag=%d valid=%d dlen=%d dseed=%d badsig=%d pin=%d",
+			p.k, p.rev, p.typ, work, vhlib.B01(prim), tagOf(e.RegistryValue), vhlib.B01(valid), p.dlen, p.dseed, vhlib.B01(p.badsig), vhlib.B01(p.primary)),
+		fmt.Sprintf("res=%s ret=%d", res, tagOf(ret))
 }
 
 func contains(s, sub string) bool {
@@ -228,6 +298,24 @@ func genHistory(t *testing.T, tr *vhlib.Trace, r *vhlib.Rand, n int) {
 			if p.rev > lastRev[k] {
 				lastRev[k] = p.rev
 			}
+			if r.Chance(1, 10) {
+				// a second update of the same key (now and then of another one) overlapping the first
+				q := putOp{k: k, typ: p.typ, dlen: r.Intn(8), dseed: r.Uint64() % 1000, primary: p.primary}
+				q.rev = p.rev + uint64(r.Intn(3))
+				if r.Chance(1, 3) && p.rev > 0 {
+					q.rev = p.rev - 1
+				}
+				if r.Chance(1, 6) {
+					q.k = r.Intn(4)
+					q.rev = lastRev[q.k] + uint64(r.Intn(2))
+				}
+				if q.rev > lastRev[q.k] {
+					lastRev[q.k] = q.rev
+				}
+				w.doConcurrentPut(tr, p, q)
+				w.doGet(tr, p.k)
+				continue
+			}
 			w.doPut(tr, p)
 		case x < 80:
 			w.doGet(tr, r.Intn(4))
@@ -250,6 +338,10 @@ func replay(t *testing.T, tr *vhlib.Trace, ops []vhlib.ParsedLine) {
 			w.close()
 		}
 	}()
+	mk := func(op vhlib.ParsedLine, pre string) putOp {
+		return putOp{k: op.Int(pre + "k"), rev: op.U64(pre + "rev"), typ: uint8(op.U64(pre + "typ")), dlen: op.Int(pre + "dlen"),
+			dseed: op.U64(pre + "dseed"), primary: op.U64(pre+"pin") == 1, badsig: op.U64(pre+"badsig") == 1}
+	}
 	for _, op := range ops {
 		switch op.Op {
 		case "reset":
@@ -259,8 +351,9 @@ func replay(t *testing.T, tr *vhlib.Trace, ops []vhlib.ParsedLine) {
 			w = newWorld(t, op.U64("limit"))
 			tr.Line(op.Raw, "")
 		case "put":
-			w.doPut(tr, putOp{k: op.Int("k"), rev: op.U64("rev"), typ: uint8(op.U64("typ")), dlen: op.Int("dlen"),
-				dseed: op.U64("dseed"), primary: op.U64("pin") == 1, badsig: op.U64("badsig") == 1})
+			w.doPut(tr, mk(op, ""))
+		case "cput":
+			w.doConcurrentPut(tr, mk(op, "a."), mk(op, "b."))
 		case "get":
 			w.doGet(tr, op.Int("k"))
 		case "limit":
